@@ -111,7 +111,7 @@ def mask_sweep(quick):
 def tracker_runs(r, quick):
     """valid lists / tracked pairs under non-finite objectives, replayed on GFO.Model.Tracker (shared with C19)"""
     from .C19 import run_one
-    specs = bkgen.all_optimizer_scenarios(r, 3 if quick else 25, constraint_p=0.2, nonfinite_p=1.0)
+    specs = bkgen.all_optimizer_scenarios(r, C.T(3, 25), constraint_p=0.2, nonfinite_p=1.0)
     dis, keys, n_ops = [], set(), 0
     for spec in specs:
         out, mon, cap = run_one(spec)
@@ -140,9 +140,9 @@ def run():
     chk.exhaustive = True
     chk.assumptions.append("sklearn's reaction to degenerate training data is an oracle; construction sites that read the valid lists (simplex, Powell, pattern, Lipschitz, forest) are examined by the monitor only")
     from . import localgen
-    localgen.add_to(chk, C.rng("C15-local"), 8 if C.tier() != "thorough" else 80, constraint_p=0.3, nonfinite_p=1.0)
-    localgen.add_pt_to(chk, C.rng("C15-pt"), 20 if C.tier() != "thorough" else 200, constraint_p=0.3, nonfinite_p=1.0)
-    localgen.add_pattern_to(chk, C.rng("C15-pattern"), 20 if C.tier() != "thorough" else 200, constraint_p=0.3, nonfinite_p=1.0)
-    localgen.add_powell_to(chk, C.rng("C15-powell"), 20 if C.tier() != "thorough" else 200, constraint_p=0.3, nonfinite_p=1.0)
+    localgen.add_to(chk, C.rng("C15-local"), C.T(8, 80), constraint_p=0.3, nonfinite_p=1.0)
+    localgen.add_pt_to(chk, C.rng("C15-pt"), C.T(20, 200), constraint_p=0.3, nonfinite_p=1.0)
+    localgen.add_pattern_to(chk, C.rng("C15-pattern"), C.T(20, 200), constraint_p=0.3, nonfinite_p=1.0)
+    localgen.add_powell_to(chk, C.rng("C15-powell"), C.T(20, 200), constraint_p=0.3, nonfinite_p=1.0)
     scen.shutdown_manager()
     return chk.finish()
